@@ -311,6 +311,12 @@ def merge_idx_rules(ctx, obs, rule, which=(('_merge_idx', 'union'), ('_intersect
                 incl = False
                 if isinstance(stop, ast.BinOp) and isinstance(stop.op, ast.Add):
                     incl = True
+                if not isinstance(stop, ast.Name):
+                    # the stop value written out: an expression over last elements ([-1]) without an added step excludes the last one
+                    if '[-1]' in unparse(stop) and not incl:
+                        ctx.violated(rule, key + '#extra-return[%s]' % txt[:60], 'an additional return builds %s whose stop value `%s` is the last common configuration itself: range() excludes its stop '
+                                     'value, so that configuration is dropped from the %s' % (txt[:80], unparse(stop), op), obs.loc(r))
+                        continue
                 if isinstance(stop, ast.Name):
                     ds = [x for x in statements(f) if isinstance(x, ast.Assign) and unparse(x.targets[0]) == stop.id]
                     if ds and all(isinstance(x.value, ast.BinOp) and isinstance(x.value.op, ast.Add) for x in ds):
